@@ -1,11 +1,12 @@
 /- Helper lemmas for C06Reach: what `step` does to the dependency attributes of tags it does not edit;
    rejected calls change nothing; the result code does not depend on `Started`. -/
 import Pk.Proofs.MgrTagsStep
+import Pk.Proofs.MgrSettleFrame
 namespace Pk.Proofs.MgrTruth
 open Pk.Mgr Pk.Proofs.MgrTags
 
 /-- the attributes of a tag the dependency classes look at -/
-def Attrs (t : Tag) : List String × List String × Nat × Nat := (t.mainT, t.subT, t.mfeat, t.sfeat)
+def Attrs (t : Tag) : List String × List String × Nat × Nat × Nat := (t.mainT, t.subT, t.mfeat, t.sfeat, t.gen)   -- CHANGED (gen)
 
 /-! ## the "attributes kept" relation and its frame -/
 
@@ -180,13 +181,15 @@ theorem step_tagDone_afr (s : St) (name : String) (result : List Nat) (st : Star
         (AFr.of_tags rfl)
       exact AFr.trans (b := { s with jTag := none }) (AFr.of_tags rfl) (tdPublish_afr _ name _ _)
 
-theorem attrs_cdF (ids : IdSet) (t : Tag) : Attrs (cdF ids t) = Attrs t := by
-  unfold cdF; split <;> rfl
+theorem attrs_cdF (all : Nat) (ids : IdSet) (t : Tag) : Attrs (cdF all ids t) = Attrs t := by   -- CHANGED (conv)
+  unfold cdF; split
+  · split <;> rfl
+  · split <;> rfl
 
 theorem cdMark_afr (s : St) (p : String × IdSet) : AFr NT s (cdMark s p) := by
   unfold cdMark; split
   · exact AFr.refl _ _
-  · exact map_afr s _ (fun _ t => cdF p.2 t) rfl (fun _ t => attrs_cdF _ t)
+  · exact map_afr s _ (fun _ t => cdF s.all p.2 t) rfl (fun _ t => attrs_cdF _ _ t)
 
 theorem step_convertDone_afr (s : St) (st : Started) : AFr NT s (step s .convertDone st).1 := by
   rw [step_convertDone_eq]
@@ -576,5 +579,73 @@ theorem step_markDel_self (s : St) (name : String) (ids : List Nat) (st : Starte
   all_goals first | exact ⟨t, ht, rfl, rfl⟩ | skip
   exact markTail_self _ _ _ _ _ _ ht
 
+/-! ## the tag counter `ngen` -/
+
+section ngen
+open Pk.Proofs.MgrSettle
+
+@[simp, c09_frame] theorem release_ngen (s : St) (fs : List Nat) : (release s fs).ngen = s.ngen := by unfold release; frame
+@[simp, c09_frame] theorem inherit_ngen (s : St) : (inherit s).ngen = s.ngen := rfl
+@[simp, c09_frame] theorem invalidateTags_ngen (s : St) (a b c : IdSet) : (invalidateTags s a b c).ngen = s.ngen := rfl
+@[simp, c09_frame] theorem invalidatedDuringTaggingJob_ngen (s : St) (ids : IdSet) :
+    (invalidatedDuringTaggingJob s ids).ngen = s.ngen := by unfold invalidatedDuringTaggingJob; frame
+@[simp, c09_frame] theorem invalidateConverters_ngen (s : St) (u : IdSet) : (invalidateConverters s u).ngen = s.ngen := by
+  unfold invalidateConverters; frame
+@[simp, c09_frame] theorem getIndexesCopy_ngen (s : St) (n : Nat) : ((getIndexesCopy s n).1).ngen = s.ngen := rfl
+@[simp, c09_frame] theorem startMerge_ngen (s : St) : (startMerge s).ngen = s.ngen := by unfold startMerge; frame
+@[simp, c09_frame] theorem startTagging_ngen (s : St) (c : Option String) : (startTagging s c).ngen = s.ngen := by
+  unfold startTagging; frame
+@[simp, c09_frame] theorem startConverter_ngen (s : St) : (startConverter s).ngen = s.ngen := by unfold startConverter; frame
+@[simp, c09_frame] theorem startImport_ngen (s : St) : (startImport s).ngen = s.ngen := by unfold startImport; frame
+@[simp, c09_frame] theorem setTag_ngen (s : St) (n : String) (t : Tag) : (setTag s n t).ngen = s.ngen := rfl
+@[simp, c09_frame] theorem addRefBy_ngen (s : St) (a b : String) : (addRefBy s a b).ngen = s.ngen := by unfold addRefBy; frame
+@[simp, c09_frame] theorem delRefBy_ngen (s : St) (a b : String) : (delRefBy s a b).ngen = s.ngen := by unfold delRefBy; frame
+@[simp, c09_frame] theorem attachConv_ngen (s : St) (n c : String) : ((attachConv s n c).1).ngen = s.ngen := by
+  unfold attachConv; frame
+@[simp, c09_frame] theorem detachConv_ngen (s : St) (n c : String) : (detachConv s n c).ngen = s.ngen := by
+  unfold detachConv; frame
+@[simp, c09_frame] theorem markUpdate_ngen (s : St) (n : String) (a d : List Nat) : ((markUpdate s n a d).1).ngen = s.ngen :=
+  markUpdate_frame (·.ngen) (fun _ _ => rfl) (fun _ _ => rfl) (fun _ _ => rfl) (fun _ _ => rfl) s n a d
+
+/-- what `step` does to `ngen`: `addTag` that is accepted counts one up, everything else keeps it -/
+theorem step_ngen_cases (s : St) (e : Ev) (st : Started) :
+    (step s e st).1.ngen = s.ngen ∨ ((∃ n c d f, e = .addTag n c d f) ∧ (step s e st).1.ngen = s.ngen + 1) := by
+  cases e with
+  | nop => exact .inl rfl
+  | importPcaps names => left; unfold step; frame
+  | importDone processed usednew created upd rst add =>
+    left; rw [step_importDone_eq]; unfold jobTail idQueue idApply idCreated; frame
+  | tagDone name result =>
+    left; rw [step_tagDone_eq]; unfold jobTail tdPublish tdInval qConv; frame
+  | mergeDone merged => left; unfold step; frame
+  | convertDone => left; rw [step_convertDone_eq]; unfold cdMark; frame
+  | addTag name color defn f =>
+    rw [step_addTag_eq]
+    repeat' split
+    all_goals first | exact .inl rfl | skip
+    right
+    refine ⟨⟨_, _, _, _, rfl⟩, ?_⟩
+    unfold atFinish
+    rw [atPair_fst]
+    frame
+  | updQuery name defn f =>
+    left; rw [step_updQuery_eq]; unfold uqApply uqInv uqRefs; frame
+  | updColor name color => left; unfold step; frame
+  | updName name new => left; rw [step_updName_eq]; unfold unApply; frame
+  | updConv name convs => left; rw [step_updConv_eq]; unfold ucAttach ucDetach; frame
+  | markAdd name ids => left; rw [step_markAdd_eq]; unfold markTail; frame
+  | markDel name ids => left; rw [step_markDel_eq]; unfold markTail; frame
+  | delTag name => left; rw [step_delTag_eq]; unfold dtApply; frame
+  | viewOpen k => left; unfold step; frame
+  | viewRelease k => left; unfold step; frame
+
+/-- `ngen` only grows, and only `addTag` changes it -/
+theorem step_ngen (s : St) (e : Ev) (st : Started) :
+    s.ngen ≤ (step s e st).1.ngen ∧ ((∀ n c d f, e ≠ .addTag n c d f) → (step s e st).1.ngen = s.ngen) := by
+  rcases step_ngen_cases s e st with h | ⟨⟨n, c, d, f, he⟩, h⟩
+  · exact ⟨Nat.le_of_eq h.symm, fun _ => h⟩
+  · exact ⟨by rw [h]; exact Nat.le_succ _, fun hne => absurd he (hne n c d f)⟩
+
+end ngen
 
 end Pk.Proofs.MgrTruth
